@@ -642,3 +642,38 @@ Proof.
   - rewrite A1, PV. tauto.
   - rewrite N1, A2. rewrite <- PV. destruct (locked_by_self st tid); destruct (find_queue g (frames_of_path g p) q); intuition congruence.
 Qed.
+
+(* ------------------------------------------------------------------ the drain-lock disjunct under an explicit discipline
+   (audit F17): dispatch_assert_queue(q) also passes when q's dq_state names the caller as drain owner.  `lock_discipline`: every
+   queue whose drain lock the executing thread holds is one the frame iterator finds.  Under it the lock word is no longer free:
+   dispatch_assert_queue accepts EXACTLY what find_queue finds.  Proofs/Frames_locks.v derives the discipline, for hierarchies
+   of serial lanes under dispatch_async, from the invariant of the protocol model Model/HLane.v. *)
+Definition lock_discipline (g : graph) (mem : Z -> Z) (tid : Z) (th : thread) : Prop :=
+  forall q, locked_by_self (mem q) tid = true -> find_queue g th q = true.
+
+Theorem assert_queue_exact_disciplined g mem tid th q r :
+  lock_discipline g mem tid th -> lookup g q = Some r -> valid_assert_type r = true ->
+  (assert_queue g (mem q) tid th q = APass <-> find_queue g th q = true) /\
+  (assert_queue_not g (mem q) tid th q = APass <-> find_queue g th q = false).
+Proof.
+  intros D L V. specialize (D q).
+  destruct (assert_queue_exact g (mem q) tid th q r L V) as [A1 A2].
+  destruct (assert_queue_not_complement g (mem q) tid th q r L V) as [N1 _].
+  rewrite N1, A1, A2.
+  destruct (locked_by_self (mem q) tid); destruct (find_queue g th q); intuition congruence.
+Qed.
+
+Theorem item_assert_queue_disciplined g p mem tid q r :
+  wf_graph g = true -> path_top p <> 0 -> lock_discipline g mem tid (frames_of_path g p) ->
+  lookup g q = Some r -> valid_assert_type r = true ->
+  (assert_queue g (mem q) tid (frames_of_path g p) q = APass <->
+     on_chain g (path_top p) q \/ match path_ctx p with Some c => find_queue g c q = true | None => False end) /\
+  (assert_queue_not g (mem q) tid (frames_of_path g p) q = APass <->
+     ~ (on_chain g (path_top p) q \/ match path_ctx p with Some c => find_queue g c q = true | None => False end)).
+Proof.
+  intros W Ht D L V. destruct (assert_queue_exact_disciplined g mem tid _ q r D L V) as [A N].
+  pose proof (path_visible g p q W Ht) as PV. split.
+  - rewrite A. exact PV.
+  - rewrite N. rewrite <- PV. destruct (find_queue g (frames_of_path g p) q); intuition congruence.
+Qed.
+
